@@ -99,6 +99,7 @@ def generate(tier, rng):
     for s in seeds:
         yield f'sh.parse.pl {hexs(s)}'
         yield f'sh.parse.ll {hexs(s)}'
+        yield f'sh.parse.twice {hexs(s)}'      # parsed before in this process, the earlier result scribbled over
         for _ in range(60 if not thorough else 2000):
             t = bytearray(s)
             for _ in range(rng.randrange(1, 3)):
@@ -110,6 +111,7 @@ def generate(tier, rng):
                 elif k == 3 and t: del t[i:]
             yield f'sh.parse.pl {hexs(bytes(t))}'
             yield f'sh.parse.ll {hexs(bytes(t))}'
+            if rng.random() < 0.3: yield f'sh.parse.twice {hexs(bytes(t))}'
     # repeated parameter names: with / without values, adjacent or not (must all be refused by the parser)
     for v in [b'label;n;n', b'label;n;n=5', b'label;n=5;n', b'label;n=1;n=2', b'a;x=1, b;k;y=2;k', b'l;n;m;n', b'l;n;m=1;n=2', b'a;k;k;k', b'a;k="";k', b'a;k=**;k=**', b'a, a', b'a;n, a;n']:
         yield f'sh.parse.pl {hexs(v)}'
